@@ -296,6 +296,16 @@ Definition explain (ck : checker) (ev mv : list bool) : explanation :=
       mk_expl false mr effective_limit warn_at src (warn_threshold_for ck mv) sc sb chain
   end.
 
+(* ---------------------------------------------------------------- validation *)
+
+(* config::validation::validate_content_section (runs when a configuration file is loaded, before any override) *)
+Definition warn_at_ok (wa : option N) (max_lines : N) : bool :=
+  match wa with Some w => w <? max_lines | None => true end.
+
+Definition validate_content (cfg : config) : bool :=
+  f64_in_unit (c_wt cfg) && warn_at_ok (c_wa cfg) (c_max cfg) &&
+  forallb (fun r => warn_at_ok (r_wa r) (r_max r)) (c_rules cfg).
+
 (* ---------------------------------------------------------------- CLI overrides *)
 
 (* the content-related CheckArgs *)
